@@ -149,6 +149,13 @@ func (p *ZodPipe[In, Out]) MustParse(input any, ctx ...*ParseContext) Out {
 	return result
 }
 
+// ParseAny runs the pipeline and returns an untyped result. It makes a
+// pipeline a ZodSchema, so that containers which only validate members that
+// are a ZodSchema (slice and array elements) do not silently skip it.
+func (p *ZodPipe[In, Out]) ParseAny(input any, ctx ...*ParseContext) (any, error) {
+	return p.Parse(input, ctx...)
+}
+
 // Internals returns the schema's internal configuration.
 func (p *ZodPipe[In, Out]) Internals() *ZodTypeInternals {
 	return p.internals
